@@ -277,6 +277,13 @@ Definition power_of_negative_ten (number exponent : N) : res N :=
 Definition sign_bit : N := 9223372036854775808.
 Definition nan_res (num off : N) : pres := mkPres qn_nan num off.
 
+(* skip zeros after the point: 0.000000000x *)
+Fixpoint skipz (rest : list N) (off dgt : N) : list N * N * N :=
+  match rest with
+  | [] => (rest, off, dgt)
+  | z :: r => if z =? ch_zero then skipz r (off + 1) z else (rest, off, z)
+  end.
+
 (* everything after the mantissa loop: the 20th digit, the integer results, the
    scan of the remaining digits / point / exponent, and the scaling *)
 Definition stn_after (is_neg : bool) (start : N) (fraconly : bool) (s : st) : res pres :=
@@ -378,12 +385,6 @@ Definition stn_body (is_neg : bool) (off0 : N) (rest0 : list N) (endo : N) : res
               let dot := off1 in
               let off2 := off1 + 1 in
               let rest2 := tl rest1 in
-              (* skip zeros after the point *)
-              let fix skipz (rest : list N) (off dgt : N) : list N * N * N :=
-                  match rest with
-                  | [] => (rest, off, dgt)
-                  | z :: r => if z =? ch_zero then skipz r (off + 1) z else (rest, off, z)
-                  end in
               let '(rest3, off3, dg3) := skipz rest2 off2 dg in
               if (off2 =? off3) && (dot =? off0) && negb (is_digit dg3)
               then Ok (inl (nan_res 0 off3))
